@@ -510,13 +510,19 @@ func tryReadTrailer(t *protocol.Trailer, r network.Reader, n int) error {
 }
 
 func parseTrailer(t *protocol.Trailer, buf []byte) (int, error) {
-	// Skip any 0 length chunk.
+	// Skip any 0 length chunk. Only a complete "0\r\n" line is one: a trailer field whose name starts with '0' is not,
+	// and the skipped bytes count towards the length the caller discards.
+	skipped := 0
 	if buf[0] == '0' {
 		skip := len(bytestr.StrCRLF) + 1
 		if len(buf) < skip {
-			return 0, io.EOF
+			// not enough bytes yet to tell a "0\r\n" line from a field name starting with '0'
+			return 0, errNeedMore
 		}
-		buf = buf[skip:]
+		if bytes.Equal(buf[1:skip], bytestr.StrCRLF) {
+			buf = buf[skip:]
+			skipped = skip
+		}
 	}
 
 	var s HeaderScanner
@@ -538,7 +544,7 @@ func parseTrailer(t *protocol.Trailer, buf []byte) (int, error) {
 	if err != nil {
 		return 0, err
 	}
-	return s.HLen, nil
+	return s.HLen + skipped, nil
 }
 
 // writeTrailer writes response trailer to w
